@@ -1,8 +1,10 @@
 (* C09 - database operations are atomic under statement failures and process death. Property theorems only.
    Model: Db/DbModel.v (every public function of parsing/sqlite.py as a tree of statements, with_connection as one transaction,
-   fault = statement number k raises IntegrityError / InterfaceError / OperationalError or the process dies there; death around commit). *)
+   fault = statement number k raises IntegrityError / InterfaceError / OperationalError / any other Exception (EExc) / a BaseException such as
+   KeyboardInterrupt (EBase) or the process dies there; death around commit; COMMIT itself raising (CCommitRaises)).
+   The theorems below quantify over `flt : option (nat * err)` and `cf : cfault`, i.e. over ALL these kinds. *)
 From Coq Require Import ZArith List Bool.
-From PG Require Import Db.DbModel Db.DbAtomic Db.DbInv.
+From PG Require Import Db.DbModel Db.DbAtomic Db.DbInv Db.DbConn Db.DbConnProofs.
 Import ListNotations.
 Open Scope Z_scope.
 
@@ -77,3 +79,53 @@ Print Assumptions faulty_history_preserves_well_formedness.
 Theorem no_orphans_after_any_faulty_history : forall h regs, no_orphans (run_faulty empty_db regs h).
 Proof. exact faulty_history_no_orphans. Qed.
 Print Assumptions no_orphans_after_any_faulty_history.
+
+(* ---- the connection protocol (Db/DbConn.v).  Gen/DbShapeGen.v wc_source is the try / except / else / finally statement of with_connection
+   transcribed from the source on every run; Db/DbConn.v interprets it with the semantics of Python's try statement.
+   (1) the with_conn of the model, about which everything above is stated, IS that interpretation: same outcome, file, registries and
+   statement count for every program, every fault kind at every position and every crash point *)
+Theorem with_connection_model_is_the_source_skeleton : forall flt cf (p : prog ret) d r,
+  fst (with_conn_gen wc_source flt cf p d r) = Some (with_conn flt cf p d r).
+Proof. exact with_conn_is_source_skeleton. Qed.
+Print Assumptions with_connection_model_is_the_source_skeleton.
+(* (2) whatever is raised wherever (any of the exception kinds, a failing COMMIT): if the process survives, the connection is CLOSED when the
+   call returns or raises - exactly one close, as the last call made on the connection, so neither a write lock nor an open transaction is left
+   behind and the operation can be repeated at once; COMMIT was issued iff the caller sees a normal return; an error seen by the caller
+   means nothing reached the file *)
+Theorem connection_is_closed_on_every_path : forall flt cf (p : prog ret) d r,
+  let res := with_conn_gen wc_source flt cf p d r in
+  survives (fst res) ->
+  x_closed (snd res) = true
+  /\ hd_error (x_ev (snd res)) = Some EvConnect
+  /\ last (x_ev (snd res)) EvConnect = EvClose
+  /\ count EvClose (x_ev (snd res)) = 1%nat /\ count EvConnect (x_ev (snd res)) = 1%nat
+  /\ (returns_normally (fst res) = true -> x_ev (snd res) = [EvConnect; EvCommit; EvClose])
+  /\ (returns_normally (fst res) = false -> x_file (snd res) = d).
+Proof. exact connection_closed_on_every_path. Qed.
+Print Assumptions connection_is_closed_on_every_path.
+(* (3) the calls made on the connection per kind of exception that leaves the body (compared with the implementation on every faulted call) *)
+Theorem connection_events_by_fault_kind : forall k e (p : prog ret) d r a s,
+  run (Some (k, e)) (seqP (ex pragma_fk) p) (mkSt d r 0) = (Bad a, s) ->
+  conn_events (Some (k, e)) CNone p d r =
+  match a with
+  | EIntegrity | EInterface => [EvConnect; EvRollback; EvClose]
+  | ECrash => [EvConnect]
+  | _ => [EvConnect; EvClose] end.
+Proof. exact events_by_kind. Qed.
+Print Assumptions connection_events_by_fault_kind.
+(* a wrapper that closes only in its handlers and after the try statement (no finally) leaks the connection for every kind it does not name *)
+Theorem wrapper_without_finally_leaks_connection_refuted : forall k d r,
+  let res := with_conn_gen wc_no_finally (Some (1%nat, EExc k)) CNone (Ret RUnit) d r in
+  fst res = Some (OOther (EExc k), d, r, 1%nat) /\ x_closed (snd res) = false /\ x_ev (snd res) = [EvConnect].
+Proof. exact no_finally_leaks_connection. Qed.
+Print Assumptions wrapper_without_finally_leaks_connection_refuted.
+Example other_fault_kinds_are_covered :
+  fst (with_conn_gen wc_source (Some (3%nat, EExc 7)) CNone (body k_op) k_db (mkReg [] [])) = Some (OOther (EExc 7), k_db, mkReg [] [], 3%nat)
+  /\ conn_events (Some (3%nat, EExc 7)) CNone (body k_op) k_db (mkReg [] []) = [EvConnect; EvClose]
+  /\ fst (with_conn_gen wc_source (Some (3%nat, EBase 1)) CNone (body k_op) k_db (mkReg [] [])) = Some (OOther (EBase 1), k_db, mkReg [] [], 3%nat)
+  /\ conn_events (Some (3%nat, EBase 1)) CNone (body k_op) k_db (mkReg [] []) = [EvConnect; EvClose]
+  /\ fst (fst (fst (with_conn None (CCommitRaises EOperational) (body k_op) k_db (mkReg [] [])))) = OOther EOperational
+  /\ snd (fst (fst (with_conn None (CCommitRaises EOperational) (body k_op) k_db (mkReg [] [])))) = k_db
+  /\ conn_events None (CCommitRaises EOperational) (body k_op) k_db (mkReg [] []) = [EvConnect; EvCommit; EvClose]
+  /\ names (mat (snd (fst (fst (run_op k_op k_db (mkReg [] [])))))) = [30].
+Proof. exact other_fault_kinds_example. Qed.
